@@ -78,6 +78,10 @@ CLAIMS = {
             "arguments, concrete and non-concrete, with modifiers, absent, API-built and spec-parsed, escaped literals) the rule's "
             "verdict and failures equal those of the same rule with the argument replaced by the reference walk's selection, for "
             "every value of the referenced value, the leaves and thresholds", "3 C17"),
+    "C18": ("per (S, T, root) combination and per sequence (same T under two roots; T into two schemas): S's rules and verdicts equal "
+            "the reference (own rules + T's rules walked from the root) and the identity graph of T and its rules is unchanged on "
+            "every symbolic path - the inductive step that makes every later addition independent - for every value of the "
+            "symbolic leaves and threshold", "3 C18"),
     "C14": ("equality laws (reflexive/symmetric/transitive, rebuilt and commuted copies equal) and 'equal implies same "
             "behaviour' decided for every value of the differing atom (key, index, argument, label) and of the probe "
             "document's leaves, per term kind", "3 C14"),
